@@ -134,7 +134,9 @@ Proof. unfold goodp, dead_conn. fin. Qed.
 Lemma goodp_lose_neg pm ps x k : negotiating (cend x k) = true -> goodp pm ps k -> goodp pm ps (lose x k).
 Proof.
   destruct k as [cl g m s qms qsm cut]. unfold goodp, lose, enq.
-  destruct x, m, s, cut; cbn; intros Hn; try discriminate Hn; fin.
+  destruct x; cbn [cend c_m c_s]; intros Hn.
+  - destruct m; try discriminate Hn; destruct cut; fin.
+  - destruct s; try discriminate Hn; destruct cut; fin.
 Qed.
 
 Lemma goodp_cancel pm ps x g k : goodp pm ps k -> goodp pm ps (cancel x g k).
@@ -147,13 +149,11 @@ Qed.
 (* Broker.shutdown of the live broker *)
 Lemma goodp_lose_brk_m pm ps k : c_m k = EBrk -> goodp pm ps k -> goodp False ps (lose TM k).
 Proof.
-  destruct k as [cl g m s qms qsm cut]. unfold goodp, lose, enq.
-  destruct m, s, cut; cbn; intros Hn; try discriminate Hn; fin.
+  destruct k as [cl g m s qms qsm cut]. unfold goodp, lose, enq. cbn [cend c_m c_s]. intros ->. destruct cut; fin.
 Qed.
 Lemma goodp_lose_brk_s pm ps k : c_s k = EBrk -> goodp pm ps k -> goodp pm False (lose TS k).
 Proof.
-  destruct k as [cl g m s qms qsm cut]. unfold goodp, lose, enq.
-  destruct m, s, cut; cbn; intros Hn; try discriminate Hn; fin.
+  destruct k as [cl g m s qms qsm cut]. unfold goodp, lose, enq. cbn [cend c_m c_s]. intros ->. destruct cut; fin.
 Qed.
 
 (* a block is taken off a queue *)
@@ -170,5 +170,87 @@ Lemma goodp_pop_ms_closed pm ps k : closed (c_s k) = true -> goodp pm ps k -> go
 Proof.
   destruct k as [cl g m s qms qsm cut]. unfold goodp, pop_ms. cbn. intros Hc.
   pose proof (hf_tl qms). pose proof (hd_tl qms).
-  destruct s; try discriminate Hc; cbn; intuition (try congruence; try discriminate).
+  assert (Hb : s <> EBrk) by (destruct s; discriminate).
+  assert (Hg : negotiating s = false) by (destruct s; try discriminate; reflexivity).
+  rewrite Hc, Hg. intuition (try congruence; try discriminate).
 Qed.
+
+Lemma goodp_pop_ms_idle pm ps k :
+  (exists m q, c_qms k = m :: q /\ is_fin m = false) -> negotiating (c_s k) = false -> goodp pm ps k -> goodp pm ps (pop_ms k).
+Proof.
+  destruct k as [cl g m s qms qsm cut]. unfold goodp, pop_ms. cbn. intros (m0 & q & -> & Hm) Hg. cbn [tl].
+  rewrite hf_cons, hd_cons, Hm, Hg. cbn [orb]. pose proof (orb_true_r (is_dec m0)).
+  intuition (try congruence; try discriminate).
+  destruct (is_dec m0); cbn in *; auto.
+Qed.
+
+(* FIN delivered: connectionLost at the receiving end *)
+Lemma goodp_lost_fin_m pm ps k q : c_qsm k = Fin :: q -> goodp pm ps k -> goodp False ps (set_end TM ELost (pop_sm k)).
+Proof.
+  destruct k as [cl g m s qms qsm cut]. unfold goodp, pop_sm, set_end. cbn. intros ->. cbn.
+  intuition (try congruence; try discriminate).
+Qed.
+Lemma goodp_lost_fin_s pm ps k q : c_qms k = Fin :: q -> goodp pm ps k -> goodp pm False (set_end TS ELost (pop_ms k)).
+Proof.
+  destruct k as [cl g m s qms qsm cut]. unfold goodp, pop_ms, set_end. cbn. intros ->. cbn.
+  pose proof (hd_tl (Fin :: q)). cbn [tl] in *.
+  intuition (try congruence; try discriminate).
+Qed.
+
+(* connectionLost after a local close or a cut *)
+Lemma goodp_lost_pending_m pm ps k : close_pending TM k = true -> goodp pm ps k -> goodp False ps (set_end TM ELost k).
+Proof.
+  destruct k as [cl g m s qms qsm cut]. unfold goodp, close_pending, set_end. cbn.
+  destruct m; cbn; intros Hp; try discriminate Hp; subst; intuition (try congruence; try discriminate).
+Qed.
+Lemma goodp_lost_pending_s pm ps k : close_pending TS k = true -> goodp pm ps k -> goodp pm False (set_end TS ELost k).
+Proof.
+  destruct k as [cl g m s qms qsm cut]. unfold goodp, close_pending, set_end. cbn.
+  destruct s; cbn; intros Hp; try discriminate Hp; subst; intuition (try congruence; try discriminate).
+Qed.
+
+(* master accepts / rejects *)
+Lemma goodp_accept_m pm ps k a b : c_m k = ENeg -> goodp pm ps k -> goodp True ps (set_end TM EBrk (enq TM (Decision a b) k)).
+Proof.
+  destruct k as [cl g m s qms qsm cut]. unfold goodp, set_end, enq. cbn. intros ->. destruct cut; fin.
+Qed.
+Lemma goodp_reject_m pm ps k : c_m k = ENeg -> goodp pm ps k -> goodp pm ps (lose TM (enq TM ErrorBlk k)).
+Proof.
+  destruct k as [cl g m s qms qsm cut]. unfold goodp, lose, set_end, enq. cbn. intros ->. destruct cut; fin.
+Qed.
+
+(* non-master end *)
+Lemma goodp_hello_s pm ps k a b q :
+  c_qms k = Hello a b :: q -> c_s k = ENeg -> goodp pm ps k -> goodp pm ps (set_end TS EDec (pop_ms k)).
+Proof.
+  destruct k as [cl g m s qms qsm cut]. unfold goodp, set_end, pop_ms. cbn. intros -> ->. cbn.
+  intuition (try congruence; try discriminate).
+Qed.
+Lemma goodp_dec_s pm ps k a b q :
+  c_qms k = Decision a b :: q -> c_s k = EDec -> goodp pm ps k -> goodp pm True (set_end TS EBrk (pop_ms k)).
+Proof.
+  destruct k as [cl g m s qms qsm cut]. unfold goodp, set_end, pop_ms. cbn. intros -> ->. cbn.
+  intuition (try congruence; try discriminate).
+Qed.
+Lemma goodp_lose_pop_s pm ps k : negotiating (c_s k) = true -> goodp pm ps k -> goodp pm ps (lose TS (pop_ms k)).
+Proof.
+  destruct k as [cl g m s qms qsm cut]. unfold goodp, lose, set_end, enq, pop_ms. cbn.
+  pose proof (hf_tl qms). pose proof (hd_tl qms).
+  intros Hn; destruct s; try discriminate Hn; destruct cut; fin.
+Qed.
+Lemma goodp_lose_pop_m pm ps k :
+  (exists m q, c_qsm k = m :: q /\ is_fin m = false) -> c_m k = ENeg -> goodp pm ps k -> goodp pm ps (lose TM (pop_sm k)).
+Proof.
+  intros (m & q & E & Hm) Hn H. apply goodp_lose_neg.
+  - destruct k; cbn in *. rewrite Hn. reflexivity.
+  - apply goodp_pop_sm; [|exact H]. exists m, q. auto.
+Qed.
+
+Lemma goodp_cut pm ps k : goodp pm ps k -> goodp pm ps (cut_conn k).
+Proof. destruct k as [cl g m s qms qsm cut]. unfold goodp, cut_conn. cbn. intuition (try congruence; try discriminate). Qed.
+Lemma goodp_kill_m pm ps k : goodp pm ps k -> goodp False ps (kill TM k).
+Proof. destruct k as [cl g m s qms qsm cut]. unfold goodp, kill, cut_conn, set_end. cbn. intuition (try congruence; try discriminate). Qed.
+Lemma goodp_kill_s pm ps k : goodp pm ps k -> goodp pm False (kill TS k).
+Proof. destruct k as [cl g m s qms qsm cut]. unfold goodp, kill, cut_conn, set_end. cbn. intuition (try congruence; try discriminate). Qed.
+Lemma goodp_fresh x g a b : goodp False False (mkconn x g ENeg ENeg [a] [b] false).
+Proof. unfold goodp. cbn. Abort.
